@@ -79,6 +79,10 @@ CASES = [
     # ---- processes
     ("proc/ok", simple("  p: process(a, b)\n  begin\n    o <= a;\n    v <= b;\n  end process;\n"), None),
     ("proc/sensitivity", simple("  p: process(a)\n  begin\n    o <= a;\n    v <= b;\n  end process;\n"), "sensitivity"),
+    ("proc/sens-elements-ok", simple("  p: process(b(0), b(1))\n  begin\n    if b(1) = '1' then\n      o <= '0';\n    elsif rising_edge(b(0)) then\n      o <= a;\n    end if;\n  end process;\n"), None),
+    ("proc/sens-other-element-missing", simple("  p: process(b(0))\n  begin\n    if b(1) = '1' then\n      o <= '0';\n    elsif rising_edge(b(0)) then\n      o <= a;\n    end if;\n  end process;\n"), "sensitivity"),
+    ("proc/sens-slice-covers-ok", simple("  p: process(b(1 downto 0))\n  begin\n    if b(1) = '1' then\n      o <= '0';\n    elsif rising_edge(b(0)) then\n      o <= a;\n    end if;\n  end process;\n"), None),
+    ("proc/sens-async-reset-missing", simple("  p: process(a)\n  begin\n    if b(1) = '1' then\n      o <= '0';\n    elsif rising_edge(a) then\n      o <= b(0);\n    end if;\n  end process;\n"), "sensitivity"),
     ("proc/clocked-ok", simple("  p: process(a)\n  begin\n    if rising_edge(a) then\n      v <= b;\n    end if;\n  end process;\n"), None),
     ("proc/wait-ok", simple("  p: process\n  begin\n    o <= '1';\n    wait;\n  end process;\n"), None),
     ("proc/empty-sens", simple("  p: process()\n  begin\n    o <= '1';\n  end process;\n"), "syntax"),
